@@ -292,6 +292,10 @@ class Walk:
                         continue
                     got = self.seen_test.get(id(t))
                     if got is not None and len(got) < 2:
+                        # an outcome that was never taken matters only if code hangs on it: a one-armed `if` (or a comprehension
+                        # filter) that is always true skips nothing, so nothing can hide behind the untaken outcome
+                        if sorted(got)[0] is True and ((isinstance(n, ast.If) and not n.orelse) or isinstance(n, ast.comprehension)):
+                            continue
                         out.append((fi, n if isinstance(n, ast.stmt) else t, f'test {u(t)[:70]} is always {sorted(got)[0]} on the domain'))
         return out
 
